@@ -4,6 +4,7 @@ Generated source programs using the block-structured API on secret conditions, e
 rendered from the same tree; differential on final tracked variables, constraint evaluation on the recorded witness,
 canonical-trace comparison across input vectors that take different branches."""
 import json
+import zlib
 import random
 
 from vf import common, shard
@@ -223,7 +224,7 @@ def render(tree, api):
             elif k == "select_list":
                 _, tgt, c, (tv, fv) = st
                 if api:
-                    lazy = hash((tgt, c, tv, fv)) % 3 == 0       # branches given as callables that return the lists
+                    lazy = zlib.crc32(repr((tgt, c, tv, fv)).encode()) % 3 == 0       # branches given as callables that return the lists
                     emit(ind, "_.%s = if_then_else(%s, %s%s, %s%s)" % (tgt, ex(c), "lambda: " if lazy else "", ex(tv), "lambda: " if lazy else "", ex(fv)))
                 else:
                     emit(ind, "%s = list(%s) if (%s) else list(%s)" % (tgt, ex(tv), ex(c), ex(fv)))
